@@ -56,16 +56,25 @@ func planFields(p *Prog, plan *types.Named) (hosts, offset, index *types.Var) {
 	if hosts2 != nil {
 		hosts = hosts2
 	}
-	if hosts == nil || offset == nil || index == nil {
-		fatalf("anchor: fields hosts/offset/index of %s not found", plan.Obj().Name())
+	if offset == nil || index == nil {
+		fatalf("anchor: fields offset/index of %s not found", plan.Obj().Name())
 	}
+	// (a plan without a host list of its own is not an anchor problem but the violation itself:
+	// the callers report it)
 	return
 }
+
+const noSnapshotMsg = "the query plan keeps no host list of its own: it reads a list that changes while the plan is being traversed, so a host can be yielded twice or skipped when hosts come and go between two Next() calls"
+
 
 func c15PlanNext(p *Prog, r *Report, rule string) {
 	r.Rule(rule, "QueryPlan.Next returns a host only under index < len(hosts), increments index exactly once per returned host and never on exhaustion, and picks hosts[(offset+index) % len(hosts)] with the sum computed in a type wider than the counters (no wrap within a traversal)")
 	_, plan := lbTypes(p)
 	hostsF, offsetF, indexF := planFields(p, plan)
+	if hostsF == nil {
+		r.bad(rule, plan.Obj().Name()+".Next", p.Pos(plan.Obj().Pos()), noSnapshotMsg)
+		return
+	}
 	fn := p.methodOf(plan, "Next")
 	if fn == nil {
 		fatalf("anchor: %s.Next not found", plan.Obj().Name())
@@ -239,6 +248,10 @@ func c15PlanNew(p *Prog, r *Report) {
 	r.Rule(rule, "NewQueryPlan snapshots the published host slice, takes its offset from an atomic add of 1 on the balancer's counter (minus 1), and starts at index 0")
 	lb, plan := lbTypes(p)
 	hostsF, offsetF, indexF := planFields(p, plan)
+	if hostsF == nil {
+		r.bad(rule, lb.Obj().Name()+".NewQueryPlan", p.Pos(plan.Obj().Pos()), noSnapshotMsg)
+		return
+	}
 	fn := p.methodOf(lb, "NewQueryPlan")
 	if fn == nil {
 		fatalf("anchor: NewQueryPlan not found")
